@@ -88,6 +88,21 @@ def replay_walk(walk, mini=None):
             lastm = muts[-1]["name"] if muts else "Init"
             viol(k, "ReadCorrect: %s differs from a fresh fit with the same configuration (last mutator %s) %s" % (o, lastm, where),
                  dict(observable=o, difference=d, mutators=muts))
+            # known finding: iminuit, parameter fixed / released after the fit and no new fit: the left-over uncertainty of a FREE parameter
+            # is the one of the fit or the conditional one of a later HESSE, depending on whether the covariance matrix was read in between
+            names = [m["name"] for m in muts]
+            if mini == "iminuit" and o in ("perrs", "result") and "DoFit" in names \
+                    and any(n in ("Fix", "Release") for n in names[len(names) - names[::-1].index("DoFit"):]):
+                try:
+                    ga = got[1]["parameter_errors"] if o == "result" else got[1]
+                    ra = ref[1]["parameter_errors"] if o == "result" else ref[1]
+                    ga = np.array(list(ga.values()) if isinstance(ga, dict) else ga, dtype=float)
+                    ra = np.array(list(ra.values()) if isinstance(ra, dict) else ra, dtype=float)
+                    differing = ~np.isclose(ga, ra, rtol=0.05, atol=1e-9)
+                    if ga.shape == ra.shape and np.all((ga[differing] > 0) & (ra[differing] > 0)):
+                        issues[-1]["kf"] = "KF-C03-IMINUIT-ERRORS-AFTER-FIX"
+                except Exception:
+                    pass
             return False
         if fitted and o in VALUE_OBS and st.get("posdef", True):
             can = canonical(ftype, dea, mini, muts, fitted_vals, o)
